@@ -178,3 +178,33 @@ for _kind in ('node', 'component', 'service', 'interface', 'link'):
     add("element/%s/stitch_node_survives_other_set" % _kind, _mk_stitch(_kind), timeout=200, encodes=ENC_G, finding="stitch",
         tiers=("quick", "thorough") if _kind in ('node', 'service') else ("thorough",),
         bounds="%s element: stitch_node set to true, then details / labels set (symbolic choice and value): stitch_node must still read true" % _kind)
+
+
+EMPTYABLE = {'capacities': lambda: Capacities(), 'labels': lambda: Labels(), 'capacity_allocations': lambda: Capacities(core=0),
+             'label_allocations': lambda: Labels()}
+
+
+def _mk_empty(kind, prop):
+    def h_empty(n: int, s: str, i: int, b: bool) -> bool:
+        """
+        pre: n >= 1 and len(s) <= 2 and 0 <= i < 6
+        post: R(_)
+        """
+        begin()
+        t = skeleton('S3')
+        e = elements(t)[kind]
+        e.set_property(prop, gen(kind, prop, n, s, i, b))
+        if e.get_property(prop) is None:
+            return False
+        # overwriting with a value that has nothing set: it must not keep reading the old value
+        e.set_property(prop, EMPTYABLE[prop]())
+        after = e.get_property(prop)
+        return after is None or after.to_json() == ''
+    return h_empty
+
+
+for _kind in ('node', 'component', 'service', 'interface', 'link'):
+    for _p in EMPTYABLE:
+        add("element/%s/overwrite_%s_with_empty" % (_kind, _p), _mk_empty(_kind, _p), timeout=300, encodes=ENC_G,
+            tiers=("quick", "thorough") if _kind in ('node', 'interface') else ("thorough",),
+            bounds="%s element: %s set to a non-empty value from symbolic scalars, then to a value with nothing set: reads back as absent/empty" % (_kind, _p))
